@@ -26,6 +26,15 @@ func ToGo(v plan.Value) interface{} {
 		return v.F
 	case "nan":
 		return math.NaN()
+	case "nilbytes":
+		return []byte(nil)
+	case "nilmap":
+		return map[string]interface{}(nil)
+	case "nilslice":
+		return []interface{}(nil)
+	case "nilerror":
+		var err error
+		return err
 	case "string":
 		return v.S
 	case "bool":
